@@ -273,7 +273,14 @@ def run(ctx):
             monitors.c10_monitor(c, tr, ix)
         finally:
             c.witness = orig
-    tstream.stream(ctx, ctx.n(60, 3000), None, [reject_frame_monitor, position_rules], gen=gen, extra_sync=lambda c, tr, ix: chain_sync(c, corr, tr, ix))
+    import sync_misc
+    vc = {"position": ctx.corr("PositionValidator", "every recorded decision of the real position validator vs model `positionVeto` on the same order and closable quantities"),
+          "closable": ctx.corr("closable / today_closable", "what the position validator is told can be closed vs model `posClosable/posTodayClosable` from the position's fields and the open closing orders")}
+
+    def both(c, tr, ix):
+        chain_sync(c, corr, tr, ix)
+        sync_misc.validators_sync(c, vc, tr, ix)
+    tstream.stream(ctx, ctx.n(60, 3000), None, [reject_frame_monitor, position_rules], gen=gen, extra_sync=both)
 
 
 def replay(ctx, data):
